@@ -3,6 +3,7 @@ import NmVerif.Lemmas.LinalgTensordot
   Lemmas for kron of C16: closed form of `kron_dst_transpose`, the interleaving transpose and the pair-merging reshape.
 -/
 namespace NmVerif
+open NmVerif.MB
 open Linalg
 
 /-- closed form of `kron_dst_transpose`: position `t` of the transposition axes -/
